@@ -54,7 +54,20 @@ def fnnls_cholesky(
         P_number = np.arange(len(P), dtype="int")
         P_inorder = P_number[P_initial]
         s_chol[P] = lstsq((ZTZ)[P][:, P], (ZTx)[P])
-        d = s_chol.clip(min=0)
+
+        if np.any(P) and np.min(s_chol[P]) > tolerance:
+            # The guessed passive set is feasible: its solution is a valid state of the algorithm, so
+            # start from it, with the gradient `w` evaluated at this solution.
+            d = s_chol.copy()
+            w = ZTx - (ZTZ) @ d
+        else:
+            # The solution of the guessed passive set has non-positive entries. Clipping them would
+            # give a `d` which solves no passive-set system (with a gradient `w` still evaluated at
+            # zero), from which the iterations below return non-optimal solutions. Use the standard
+            # start from the empty passive set instead.
+            P[:] = False
+            s_chol[:] = 0.0
+            P_inorder = np.array([], dtype="int")
     else:
         P_inorder = np.array([], dtype="int")
 
